@@ -227,7 +227,7 @@ impl num_traits::NumCast for TwoFloat {
     fn from<T: num_traits::ToPrimitive>(n: T) -> Option<Self> {
         const INT_THRESHOLD: f64 = hexf64!("0x1.0p53");
         if let Some(f) = n.to_f64() {
-            if libm::fabs(f) <= INT_THRESHOLD {
+            if libm::fabs(f) < INT_THRESHOLD {
                 Some(f.into())
             } else if let Some(i) = n.to_i128() {
                 Some(i.into())
